@@ -316,6 +316,15 @@ _sink(struct pcp_server *svr, char *targ, BUF *bufp) {
         if (*cp++ != ' ')
             SCREWUP("size not delimited");
 
+        /*
+         * The name is a single component to be created in the target:
+         * never follow it out of the target directory.
+         */
+        if (strchr(cp, '/') != NULL || strcmp(cp, "..") == 0) {
+            _error(svr, "%s: unexpected filename\n", cp);
+            continue;
+        }
+
         /* filename is "retrieved" in this if/else block */
         if (targisdir) {
 
